@@ -124,7 +124,7 @@ FlatHeap(H, c) ==
 Flatten ==
   /\ "Flatten" \in Acts /\ CanStep
   /\ \E c \in tops :
-       /\ c \in sealed \/ \A b \in Blocks(heap, c) : EvalRep(env, heap[b].rep) = 1
+       \* (pending repetition counts are not consumed by flattening: every leaf is kept once, see FlatHeap)
        /\ (\E i \in Subtree(heap, c) : heap[i].t = "comp" /\ i # c) \/ hist[Len(hist)].a # "Flatten"
        /\ heap' = FlatHeap(heap, c)
        /\ sealed' = sealed \cup {c}
